@@ -161,10 +161,50 @@ def task_mutants(spec, summ):
                 continue        # not a well-formed stand-in for the same block
             pairs.append([ta, AJ.items_to_text(mut, 2)])
             meta.append((base, mut, opname))
+    return judge_pairs(spec, summ, flags, pairs, meta)
+
+
+ENUM_VOCAB = [("PUSH", "0"), ("PUSH", "1"), ("DUP1", None), ("DUP2", None), ("SWAP1", None), ("POP", None), ("ADD", None), ("SUB", None),
+              ("MUL", None), ("AND", None), ("OR", None), ("XOR", None), ("NOT", None), ("ISZERO", None), ("EQ", None), ("LT", None),
+              ("GT", None), ("DIV", None), ("MLOAD", None), ("MSTORE", None), ("SLOAD", None), ("SSTORE", None), ("SHL", None), ("EXP", None)]
+ENUM_TASKS = len(ENUM_VOCAB)
+SIMILAR = {"ADD": "SUB", "SUB": "ADD", "LT": "GT", "GT": "LT", "AND": "OR", "OR": "XOR", "XOR": "OR", "MUL": "ADD", "DIV": "MUL", "EQ": "LT",
+           "NOT": "ISZERO", "ISZERO": "NOT", "MSTORE": "SSTORE", "SSTORE": "MSTORE", "MLOAD": "SLOAD", "SLOAD": "MLOAD", "DUP1": "DUP2", "DUP2": "DUP1",
+           "SHL": "EXP", "EXP": "SHL", "PUSH": None}
+
+
+def task_enum(spec, summ):
+    """Small-scope sweep: every block of <= 3 instructions over ENUM_VOCAB that starts with one given instruction, compared
+    with itself (reflexivity: the front-end must not raise on any of them) and with the block whose last instruction is
+    replaced by a similar one of the same arity."""
+    i = spec["index"]
+    first = ENUM_VOCAB[i]
+    blocks = [[first]] + [[first, a] for a in ENUM_VOCAB] + [[first, a, b] for a in ENUM_VOCAB for b in ENUM_VOCAB]
+    flags = [[], ["-no-simplification"], ["-size"], ["-push0"]][i % 4]
+    pairs, meta = [], []
+    for b in blocks:
+        if not legal(b, 8):
+            continue
+        ta = AJ.items_to_text(b, 2)
+        pairs.append([ta, ta])
+        meta.append((b, b, "reflexive"))
+        name, val = b[-1]
+        other = SIMILAR.get(name)
+        m = b[:-1] + ([(other, None)] if other else [("PUSH", "1" if val == "0" else "0")] if name == "PUSH" else [])
+        if len(m) == len(b) and legal(m, evm.stack_need_and_delta(b)[0]):
+            pairs.append([ta, AJ.items_to_text(m, 2)])
+            meta.append((b, m, "subst-last"))
+    summ["probes"]["enumerated_blocks"] = len(blocks)
+    return judge_pairs(spec, summ, flags, pairs, meta)
+
+
+def judge_pairs(spec, summ, flags, pairs, meta):
+    i = spec["index"]
+    viols = []
     if not pairs:
         return viols
     op = {"argv": flags + ["-greedy"], "pairs": pairs}
-    st, out = procs.run_sut(pipe.run_compare, op, cpu_s=300)
+    st, out = procs.run_sut(pipe.run_compare, op, cpu_s=300 if len(pairs) < 100 else 1200)
     if st != "ok":
         summ["inconclusive"] += 1
         return viols
@@ -401,7 +441,9 @@ def task_forves(spec, summ):
 def task(spec):
     summ = {"evals": 0, "keys": [], "probes": {}, "faults": {}, "sim_s": 0.0, "samples": [], "harness": 0, "inconclusive": 0}
     i = spec["index"]
-    if i % 8 == 6:
+    if i < ENUM_TASKS:
+        viols = task_enum(spec, summ)
+    elif i % 8 == 6:
         viols = task_corrupt_peer(spec, summ)
     elif i % 8 in (5, 7):
         viols = task_forves(spec, summ)
